@@ -153,6 +153,18 @@ def oracle(ctx):
             units.append(((d + '/' if d else '') + rnd.choice(FILE_STEMS) + '.' + ty, gen_unit(ctx, ty)))
     known = {k['id']: k for k in ctx.known}
     units = list(units)
+    # every documented key whose text is carried into a command, once with an escaped line feed followed by what would be forged lines
+    # (whatever route the value takes inside the generator: table helper, handler, slice of literals): systematic, not drawn
+    from props import c02 as _c02
+    sysn = 0
+    for ty in G.TYPES:
+        for key, kind, spec_ in _c02.key_specs(ty):
+            if kind == 'bool' or (kind == 'special' and isinstance(spec_, tuple)):
+                continue
+            for v in ('/etc/p.json\\nRestart=always\\n[Install]\\nWantedBy=evil.target', 'v\\x0aExecStartPre=/bin/false', '"q\\n[Service]\\nK=1"'):
+                if sysn % (1 if ctx.thorough else 2) == 0:
+                    units.append((f'sys{sysn}.' + ty, '[' + G.SEC[ty] + ']\n' + '\n'.join(G.BASE[ty] + [f'{key}={v}']) + '\n'))
+                sysn += 1
     # (T1) where text reaches a unit without the value quoter: inventory regenerated from the source vs the reviewed classification
     import sys
     rc0, out0, err0 = core.sh([sys.executable, os.path.join(core.VERIF, 'tools', 'raw_sites.py'), core.REPO, os.path.join(core.BUILD, 'raw_sites.json')])
